@@ -6,12 +6,13 @@ static struct { const char *name; int (*fn)(FILE *, FILE *); } cmds[] = {
     {"compint", cmd_compint},
     {"hash", cmd_hash},
     {"pin", cmd_pin},
+    {"meta", cmd_meta},
     {"readenum", cmd_readenum},
     {NULL, NULL}
 };
 
 const char *__asan_default_options(void) {
-    return "exitcode=99:allocator_may_return_null=1:detect_leaks=0:abort_on_error=0:handle_abort=1:max_allocation_size_mb=4096";
+    return "exitcode=99:allocator_may_return_null=1:detect_leaks=0:abort_on_error=0:handle_abort=1:max_allocation_size_mb=512";
 }
 const char *__ubsan_default_options(void) { return "print_stacktrace=1:halt_on_error=0"; }
 const char *__tsan_default_options(void) { return "exitcode=98:halt_on_error=0:report_signal_unsafe=0"; }
